@@ -30,13 +30,14 @@ func c17Contents() [][]mockq.Rec {
 		}
 		return out
 	}
-	// nesting depth 200 in the bulk contents; the 10^4-deep documents live in their own content, which only
+	// nesting depth 200 in the bulk contents; the 3000-deep documents live in their own content, which only
 	// the JSON-reading stages are evaluated against (json extraction is quadratic in the nesting depth: 13 s per
 	// evaluation at depth 10^4, see DESIGN.md)
 	deep := strings.Repeat(`{"a":`, 200) + "1" + strings.Repeat("}", 200)
 	deepArr := strings.Repeat("[", 200) + strings.Repeat("]", 200)
-	veryDeep := strings.Repeat(`{"a":`, 10000) + "1" + strings.Repeat("}", 10000)
-	veryDeepArr := strings.Repeat("[", 10000) + strings.Repeat("]", 10000)
+	// depth 3000: about 1 s per evaluation on an idle core, far below the 20 s / 120 s watchdog even on a loaded machine
+	veryDeep := strings.Repeat(`{"a":`, 3000) + "1" + strings.Repeat("}", 3000)
+	veryDeepArr := strings.Repeat("[", 3000) + strings.Repeat("]", 3000)
 	return [][]mockq.Rec{
 		mk("\x00\xff\xfe\x80", "", "a", "\x1b[\x1b[;;;;m", strings.Repeat("é", 300), "<>{{}}%!s(MISSING)", "\"", "\\"),
 		mk(`{"a":{"b":[1,2`, deep, deepArr, `{"a":"b","a":{"a":"b"},"v":1e999,"":""}`, `{"_entry":5,"x y":"z"}`, `{"_entry":"{\"_entry\":1}","a":"\ud800"}`, `[1,2,3]`, `null`, `{"a":1}{"a":2}`, `{"tags":["a",null],"a":[null]}`, `{"a":{"b":[{"c":null},null,[null]]}}`),
@@ -269,7 +270,7 @@ func c17Run(r *vkit.Run) {
 	} {
 		visit(q)
 	}
-	// the 10^4-deep documents: every JSON-reading stage, under the watchdog
+	// the 3000-deep documents: every JSON-reading stage, under the watchdog
 	for i, q := range []string{`{} | json`, `{} | json a`, `{} | json x="a.a.a"`, `{} | unpack`, `{} | logfmt`, `{} | line_format "{{ fromJson __line__ }}"`, `count_over_time({} | json [10s])`, `{} | decolorize | regexp "(?P<x>\\[+)"`} {
 		if r.Mine(i) && !stop {
 			for _, rg := range []bool{false, true} {
@@ -282,7 +283,7 @@ func c17Run(r *vkit.Run) {
 	if r.WantSample() {
 		r.Sample(map[string]any{"token_sequence": "sum ( rate ( {a=\"b\"} [1s] ) )", "byte_string": "{\xff\"", "contents": len(c17Data)})
 	}
-	r.Note("bounds", fmt.Sprintf("queries: the %d-query positive corpus; delete/replace/insert of every one of %d vocabulary tokens at every position of every %dth corpus query; all token sequences of length <=%d over the vocabulary; all byte strings of length <=3 over 24 bytes; 50 hostile template/regex/pattern/path queries. Every query that parses is evaluated instant and as a 5-step range query against %d log contents (arbitrary bytes, truncated and deeply nested JSON (10^4-deep for the JSON-reading stages), malformed logfmt, extreme numbers/durations/sizes, odd IPs). Watchdog 20 s, a hang is believed only after a second 120 s run", len(cp), len(c17Vocab), step, L, len(c17Data)))
+	r.Note("bounds", fmt.Sprintf("queries: the %d-query positive corpus; delete/replace/insert of every one of %d vocabulary tokens at every position of every %dth corpus query; all token sequences of length <=%d over the vocabulary; all byte strings of length <=3 over 24 bytes; 50 hostile template/regex/pattern/path queries. Every query that parses is evaluated instant and as a 5-step range query against %d log contents (arbitrary bytes, truncated and deeply nested JSON (3000-deep for the JSON-reading stages), malformed logfmt, extreme numbers/durations/sizes, odd IPs). Watchdog 20 s, a hang is believed only after a second 120 s run", len(cp), len(c17Vocab), step, L, len(c17Data)))
 }
 
 func c17Replay(r *vkit.Run, v vkit.Violation) *vkit.Violation {
